@@ -56,9 +56,26 @@ func (e *Eng) prove(c *Term) bool {
 	if v, ok := p.proveMemo[c.ID]; ok {
 		return v
 	}
+	// solver-decided proofs are recorded in the decision log: a re-executed prefix must take the
+	// same turns even if a solver answer (time-out) would differ
+	if p.pos < len(p.prefix) {
+		d := p.prefix[p.pos]
+		if !d.IsVal {
+			panic(fmt.Sprintf("decision prefix mismatch at %d (bool where proof result expected)", p.pos))
+		}
+		p.pos++
+		ok := d.V == 1
+		p.proveMemo[c.ID] = ok
+		if ok {
+			p.trueMemo[c.ID] = true
+		}
+		return ok
+	}
 	e.stats.RefineQueries++
 	r, _ := e.solver.Check([]*Term{e.tb.BNot(c)}, nil)
 	ok := r == Unsat
+	p.prefix = append(p.prefix, dec{IsVal: true, V: b2u(ok)})
+	p.pos++
 	if debugDecide && !ok {
 		fmt.Fprintf(os.Stderr, "PROVE-FAIL %s %s\n", r, c.strDepth(5))
 	}
